@@ -112,6 +112,29 @@ impl S3Path {
 //@@ extract S3Path_object file=crates/s3s/src/path.rs item="impl S3Path/fn object" rewrites=attr,ret
 }
 
+// ---- is_socket_addr_or_ip_addr (ops/mod.rs): which Host values are never read as virtual-hosted-style ---------------------
+#[verifier::external_trait_specification]
+pub trait ExFromStr: Sized {
+    type ExternalTraitSpecificationFor: core::str::FromStr;
+    type Err;
+    fn from_str(s: &str) -> Result<Self, Self::Err>;
+}
+/// `str::parse::<F>()`: F's FromStr decoder as a function of the text (uninterpreted; std's SocketAddr / IpAddr parsers are trusted)
+pub uninterp spec fn spec_from_str<F: core::str::FromStr>(s: Seq<char>) -> Result<F, F::Err>;
+pub assume_specification<F: core::str::FromStr>[ str::parse::<F> ](s: &str) -> (r: Result<F, F::Err>)
+    ensures r == spec_from_str::<F>(s@);
+#[verifier::external_type_specification]
+#[verifier::external_body]
+pub struct ExSocketAddr(std::net::SocketAddr);
+#[verifier::external_type_specification]
+#[verifier::external_body]
+pub struct ExIpAddr(std::net::IpAddr);
+#[verifier::external_type_specification]
+#[verifier::external_body]
+pub struct ExAddrParseError(std::net::AddrParseError);
+use std::net::{SocketAddr, IpAddr};
+//@@ extract is_socket_addr_or_ip_addr file=crates/s3s/src/ops/mod.rs item="fn is_socket_addr_or_ip_addr" rewrites=attr,ret
+
 //@@ extract check_key file=crates/s3s/src/path.rs item="fn check_key" rewrites=attr,ret
 //@@ extract parse_path_style file=crates/s3s/src/path.rs item="fn parse_path_style" rewrites=attr,ret
 //@@ extract parse_virtual_hosted_style file=crates/s3s/src/path.rs item="fn parse_virtual_hosted_style" rewrites=attr,ret
